@@ -292,6 +292,8 @@ def m_e2e(ctx, case):
             # a receive time-out while the feed pauses between two chunks (RCVTIMEO expiring) takes nothing from the stream:
             # the run loop has to go on with the bytes it already holds
             rec["calls"] = rec.get("calls", 0) + 1
+            # everything received so far has been through the parser: note (bytes delivered, frames handed on)
+            rec.setdefault("checkpoints", []).append((sum((x[-1] if isinstance(x, list) else x) for x in rec["sizes"]), len(rec["emitted"])))
             if case.get("again_every") and rec["calls"] % case["again_every"] == 0 and rec.get("injected", 0) < 200:
                 rec["injected"] = rec.get("injected", 0) + 1
                 raise zmq.error.Again()
@@ -345,6 +347,13 @@ def m_e2e(ctx, case):
         ctx.violation("e2e-run-raises", error=err, **info)
         return
     em = rec["emitted"]
+    ends_due = [e for e, _ in exp]
+    for (got_bytes, n_out) in rec.get("checkpoints", []):
+        due = bisect.bisect_right(ends_due, got_bytes - extra)
+        if n_out < min(due, len(msgs_exp)):
+            ctx.violation("e2e-frame-withheld-although-complete-and-followed", delivered=got_bytes, handed_on=n_out, due=due, **info)
+            return
+    ctx.hit("e2e_checkpoints", len(rec.get("checkpoints", [])))
     if em != msgs_exp[:len(em)]:
         k = next((j for j in range(min(len(em), len(msgs_exp))) if em[j] != msgs_exp[j]), min(len(em), len(msgs_exp)))
         ctx.violation("e2e-frames-corrupted-lost-or-reordered", index=k, emitted=em[k] if k < len(em) else None,
@@ -531,8 +540,16 @@ def cases(ctx):
     for k in range(ctx.share(12 if quick else 400)):
         fmt, mk = (("beast", beast_specs), ("raw", raw_specs), ("sky", sky_specs))[(k + ctx.shard) % 3]
         specs = mk(rng, rng.randint(4, 10))
-        stream = mk_stream(fmt, specs)[0]
+        stream, ends_ = mk_stream(fmt, specs)[:2]
         n = len(stream)
-        cuts = sorted(set(rng.randrange(1, n) for _ in range(rng.choice((2, 4, 8)))))
+        cuts = set(rng.randrange(1, n) for _ in range(rng.choice((2, 4, 8))))
+        # reads that end exactly on / right after the first byte of the next frame (for Beast: the <esc> opening it), with
+        # the rest of that frame arriving later: a frame is due as soon as it is complete and followed by a frame start
+        for e in rng.sample(list(ends_), min(len(ends_), rng.choice((1, 2, 3)))):
+            if 0 < e + 1 < n:
+                cuts.add(e + 1)
+                if e + 1 + 3 < n and rng.random() < 0.7:
+                    cuts.add(e + 1 + rng.randint(1, 3))
+        cuts = sorted(cuts)
         yield "e2e", {"kind": fmt, "specs": specs, "cuts": cuts, "delay": rng.choice((0.02, 0.05)),
                       "again_every": rng.choice((0, 2, 2, 3))}
